@@ -372,8 +372,14 @@ class IPPO(MultiAgentRLAlgorithm):
         :return: Preprocessed observations
         :rtype: torch.Tensor[float] or dict[str, torch.Tensor[float]] or Tuple[torch.Tensor[float], ...]
         """
+        # NOTE: Iterate in the order of the agent IDs, which is the order in which
+        # `disassemble_homogeneous_outputs` hands the outputs back to the agents
         preprocessed = {homo_id: [] for homo_id in self.shared_agent_ids}
-        for agent_id, obs in observation.items():
+        for agent_id in self.agent_ids:
+            if agent_id not in observation.keys():
+                continue
+
+            obs = observation[agent_id]
             homo_id = self.get_homo_id(agent_id)
             preprocessed[homo_id].append(
                 preprocess_observation(
